@@ -11,6 +11,9 @@ package cluster
 // be answered with an error or by dropping the connection, before or after it
 // was executed. Request-level scheduling: the harness can have the (k+1)-th
 // request of one connection held until it says so (armPause).
+//
+// Non-test file under tag `verif` (never part of a normal build) so that the
+// harness in package cmd can use the same double (Verif* API at the end).
 
 import (
 	"bufio"
@@ -157,6 +160,8 @@ func (st *vfLeaseStore) exec(args []string) vfReply {
 	switch strings.ToUpper(args[0]) {
 	case "PING":
 		return vfReply{kind: '+', s: "PONG"}
+	case "INFO": // enough for redis.GetRedisRoleOnline on a standalone input
+		return vfReply{kind: '$', s: "# Replication\r\nrole:master\r\nconnected_slaves:0\r\n"}
 	case "GET":
 		if len(args) != 2 {
 			return vfReply{kind: '-', s: "ERR wrong number of arguments for 'get' command"}
@@ -825,3 +830,63 @@ func vfLuaRun(ch *vfLuaChunk, st *vfLeaseStore, keys, argv []string) vfReply {
 	}
 	return vfReply{kind: '-', s: "ERR unsupported return value"}
 }
+
+// ------------------------------------------------------------ API for other packages' harnesses
+
+type VerifLeaseStore = vfLeaseStore
+
+func VerifNewLeaseStore() (*VerifLeaseStore, error) { return vfNewLeaseStore() }
+
+func (st *vfLeaseStore) VerifReset(now int64) {
+	st.mu.Lock()
+	st.now = now
+	st.data = map[string]vfEntry{}
+	st.fail = vfFailNone
+	st.pauseConn = -1
+	st.mu.Unlock()
+}
+
+func (st *vfLeaseStore) VerifAdvance(ms int64) {
+	st.mu.Lock()
+	st.now += ms
+	st.mu.Unlock()
+}
+
+func (st *vfLeaseStore) VerifNow() int64 {
+	st.mu.Lock()
+	defer st.mu.Unlock()
+	return st.now
+}
+
+// VerifLive returns the unexpired value of key.
+func (st *vfLeaseStore) VerifLive(key string) (val string, exp int64, ok bool) {
+	st.mu.Lock()
+	defer st.mu.Unlock()
+	e, ok := st.live(key)
+	return e.val, e.exp, ok
+}
+
+// VerifLiveKeys lists the unexpired keys (sorted by the caller if needed).
+func (st *vfLeaseStore) VerifLiveKeys() []string {
+	st.mu.Lock()
+	defer st.mu.Unlock()
+	var ks []string
+	for k := range st.data {
+		if _, ok := st.live(k); ok {
+			ks = append(ks, k)
+		}
+	}
+	return ks
+}
+
+// VerifHoldNext holds the next data request of the connection that most
+// recently pinged (i.e. the client dialled last) until VerifRelease.
+func (st *vfLeaseStore) VerifHoldNext() {
+	st.mu.Lock()
+	c := st.lastPingConn
+	st.mu.Unlock()
+	st.armPause(c, 0)
+}
+
+func (st *vfLeaseStore) VerifHeld() <-chan struct{} { return st.pausedCh }
+func (st *vfLeaseStore) VerifRelease()              { close(st.releaseCh) }
